@@ -5,7 +5,8 @@
 //! nondeterministic step).
 //!
 //! ops:
-//!   new players=<n> window=<w> dist=<d> delay=<k>   -> ok | rejected | panic
+//!   new players=<n> window=<w> dist=<d> delay=<k> [ext=1]  -> ok | rejected | panic
+//!       ext=1: the game keeps its snapshots itself and hands ggrs only the checksum (`cell.save(f, None, Some(c))`)
 //!   local <h> <v>                                   -> ok | invalid | panic
 //!   advance [noise@<frame>[#<k>]...]                -> req <requests> cur=<c> h=<n>[ !<contract violation>..]
 //!                                                      | mismatch cur=<c> frames=<f,..> h=<n> | invalid cur=<c> h=<n> | panic
@@ -27,11 +28,14 @@ struct Game {
     hashes: Vec<u64>,
     /// number of saves of each noisy frame so far
     noise: HashMap<i32, u64>,
+    /// the game stores its snapshots itself (frame -> (frame, hash)) and saves `None` data
+    ext: bool,
+    snaps: HashMap<i32, (i32, u64)>,
 }
 
 impl Game {
-    fn new(window: usize) -> Self {
-        Self { window, frame: 0, hash: 0x1234_5678, hashes: vec![0x1234_5678], noise: HashMap::new() }
+    fn new(window: usize, ext: bool) -> Self {
+        Self { window, frame: 0, hash: 0x1234_5678, hashes: vec![0x1234_5678], noise: HashMap::new(), ext, snaps: HashMap::new() }
     }
 
     /// Executes one request list; returns its rendering and the contract violations seen.
@@ -54,7 +58,12 @@ impl Game {
                             checksum = mix(checksum, 0xdead_0000 + *n);
                         }
                     }
-                    cell.save(frame, Some(GState { frame: self.frame, hash: self.hash }), Some(u128::from(checksum)));
+                    if self.ext {
+                        self.snaps.insert(frame, (self.frame, self.hash));
+                        cell.save(frame, None, Some(u128::from(checksum)));
+                    } else {
+                        cell.save(frame, Some(GState { frame: self.frame, hash: self.hash }), Some(u128::from(checksum)));
+                    }
                 }
                 GgrsRequest::LoadGameState { cell, frame } => {
                     out.push(format!("L{frame}"));
@@ -63,7 +72,8 @@ impl Game {
                     } else if self.frame - frame > self.window as i32 {
                         bad.push(format!("load-beyond-window:{frame}@{}", self.frame));
                     }
-                    match cell.load() {
+                    let loaded = if self.ext { self.snaps.get(&frame).map(|(f, h)| GState { frame: *f, hash: *h }) } else { cell.load() };
+                    match loaded {
                         None => bad.push(format!("load-empty-cell:{frame}")),
                         Some(st) => {
                             let want = if frame >= 0 && (frame as usize) < self.hashes.len() { Some(self.hashes[frame as usize]) } else { None };
@@ -121,6 +131,7 @@ fn new_world(toks: &[&str]) -> Result<Option<World>, String> {
     let window = kv(toks, "window").unwrap_or(8);
     let dist = kv(toks, "dist").unwrap_or(2);
     let delay = kv(toks, "delay").unwrap_or(0);
+    let ext = kv(toks, "ext").unwrap_or(0) == 1;
     guarded(move || -> Result<SyncTestSession<CfgRepeat>, GgrsError> {
         SessionBuilder::<CfgRepeat>::new()
             .with_num_players(players)?
@@ -129,7 +140,7 @@ fn new_world(toks: &[&str]) -> Result<Option<World>, String> {
             .with_input_delay(delay)
             .start_synctest_session()
     })
-    .map(|r| r.ok().map(|sess| World { sess, game: Game::new(window) }))
+    .map(|r| r.ok().map(|sess| World { sess, game: Game::new(window, ext) }))
 }
 
 pub fn run() {
